@@ -572,8 +572,8 @@ fn pattern(n: u32) -> BigInt {
     top + low
 }
 
-/// The i128 boundary lattice: (value, level). level 0 = core, 1 = all structured values + every
-/// 16th bit length, 2 = every 4th bit length, 3 = every bit length. Sorted simplest first.
+/// The i128 boundary lattice: (value, level). level 0 = core, 1 = most structured values + every
+/// 16th bit length, 2 = every even bit length, 3 = every bit length. Sorted simplest first.
 fn lattice128() -> Vec<(i128, u8)> {
     let m: std::cell::RefCell<BTreeMap<i128, u8>> = Default::default();
     let put = |v: i128, l: u8| {
@@ -586,10 +586,10 @@ fn lattice128() -> Vec<(i128, u8)> {
         put(-v, l);
     };
     pm(0, 0);
-    for (v, l) in [(1, 0), (2, 0), (3, 0), (7, 0), (5, 1), (10, 1)] {
+    for (v, l) in [(1, 0), (2, 0), (3, 0), (7, 0), (5, 2), (10, 2)] {
         pm(v, l);
     }
-    for (k, l) in [(1u32, 1u8), (9, 0), (17, 1), (18, 0), (19, 1), (36, 1), (37, 1), (38, 0)] {
+    for (k, l) in [(1u32, 2u8), (9, 0), (17, 2), (18, 0), (19, 1), (36, 2), (37, 1), (38, 0)] {
         pm(10i128.pow(k), l);
     }
     // Wad-specific neighbours: 1.0 +- 1 ulp, 0.5, 1.5, MAX/10^18 (from_integer boundary)
@@ -602,10 +602,11 @@ fn lattice128() -> Vec<(i128, u8)> {
     pm(sq_wad + 1, 1);
     for k in [31u32, 32, 62, 63, 64, 65, 95, 96, 126] {
         let core = matches!(k, 63 | 64 | 126);
+        let rest = if matches!(k, 31 | 95) { 2 } else { 1 };
         let p = 1i128 << k;
-        pm(p - 1, if core && k == 64 { 0 } else { 1 });
-        pm(p, if core { 0 } else { 1 });
-        pm(p + 1, if core && k == 64 { 0 } else { 1 });
+        pm(p - 1, if core && k == 64 { 0 } else { rest });
+        pm(p, if core { 0 } else { rest });
+        pm(p + 1, if core && k == 64 { 0 } else { rest });
     }
     put(i128::MIN, 0);
     put(i128::MIN + 1, 0);
@@ -622,7 +623,7 @@ fn lattice128() -> Vec<(i128, u8)> {
             0
         } else if n % 16 == 0 {
             1
-        } else if n % 4 == 0 {
+        } else if n % 2 == 0 {
             2
         } else {
             3
@@ -737,6 +738,9 @@ struct Sizes {
     /// lattice level for the checked variants / for the panicking variants (i128 lattice^3)
     lvl_checked: u8,
     lvl_panicking: u8,
+    /// lattice values above `lvl_checked` up to this level are placed in ONE operand position at a
+    /// time, the other two operands ranging over the level <= 1 lattice
+    lvl_single: u8,
     /// |x|,|y|,|d| <= small: all triples, both variants
     small: i128,
     /// lifted small triples (a*2^63, b*2^65, c*2^120): |a|,|b|,|c| <= lifted
@@ -751,8 +755,8 @@ struct Sizes {
 
 fn sizes(tier: Tier) -> Sizes {
     tier.pick(
-        Sizes { lvl_checked: 1, lvl_panicking: 0, small: 12, lifted: 8, rz: 300, rz_wide: 100, lvl256: 0, lvl_wad: 1, wad_small: 10 },
-        Sizes { lvl_checked: 3, lvl_panicking: 1, small: 40, lifted: 24, rz: 300, rz_wide: 300, lvl256: 2, lvl_wad: 3, wad_small: 30 },
+        Sizes { lvl_checked: 1, lvl_panicking: 0, lvl_single: 1, small: 12, lifted: 8, rz: 300, rz_wide: 100, lvl256: 0, lvl_wad: 1, wad_small: 10 },
+        Sizes { lvl_checked: 2, lvl_panicking: 1, lvl_single: 3, small: 40, lifted: 24, rz: 300, rz_wide: 300, lvl256: 2, lvl_wad: 3, wad_small: 30 },
     )
 }
 
@@ -772,12 +776,28 @@ fn enumerate(tier: Tier) -> Tally {
     let lat = |lvl: u8| -> Vec<i128> { l128.iter().filter(|(_, l)| *l <= lvl).map(|(v, _)| *v).collect() };
     let lc = lat(sz.lvl_checked);
     let lp: std::collections::BTreeSet<i128> = lat(sz.lvl_panicking).into_iter().collect();
+    // values used in one operand position at a time against the level <= 1 lattice
+    let l1 = lat(1);
+    let single: Vec<i128> = l128.iter().filter(|(_, l)| *l > sz.lvl_checked && *l <= sz.lvl_single).map(|(v, _)| *v).collect();
     // later families skip inputs that an earlier family already evaluated (counts are of distinct inputs)
     let lcs: std::collections::BTreeSet<i128> = lc.iter().copied().collect();
+    let l1s: std::collections::BTreeSet<i128> = l1.iter().copied().collect();
+    let sgs: std::collections::BTreeSet<i128> = single.iter().copied().collect();
+    let lall: std::collections::BTreeSet<i128> = l128.iter().map(|(v, _)| *v).collect();
+    // (x, y, d) already evaluated by the lattice families F1 / F1b
+    let covered = |x: i128, y: i128, d: i128| -> bool {
+        if lcs.contains(&x) && lcs.contains(&y) && lcs.contains(&d) {
+            return true;
+        }
+        let s = [x, y, d].iter().filter(|v| sgs.contains(v)).count();
+        let o = [x, y, d].iter().filter(|v| l1s.contains(v)).count();
+        s == 1 && o == 2
+    };
     println!(
-        "i128 lattice: {} values (checked variants), {} values (panicking variants), {} in total",
+        "i128 lattice: {} values in the cube (checked variants), {} values in the cube of the panicking variants, {} values used in one position at a time, {} in total",
         lc.len(),
         lp.len(),
+        single.len(),
         l128.len()
     );
     let mut total = Tally::default();
@@ -793,6 +813,14 @@ fn enumerate(tier: Tier) -> Tally {
         })
     }));
 
+    // F1b: every remaining bit length in one operand position at a time
+    if !single.is_empty() {
+        let (sx, sy, sd) = (cross(&single, &l1), cross(&l1, &single), cross(&l1, &l1));
+        total = total.merge(timed("i128 one operand of every other bit length, x", || run_i128(&sx, |_, _, _, out| out.extend(l1.iter().map(|&d| (d, false))))));
+        total = total.merge(timed("i128 one operand of every other bit length, y", || run_i128(&sy, |_, _, _, out| out.extend(l1.iter().map(|&d| (d, false))))));
+        total = total.merge(timed("i128 one operand of every other bit length, d", || run_i128(&sd, |_, _, _, out| out.extend(single.iter().map(|&d| (d, false))))));
+    }
+
     // F2: derived divisors: d = trunc(x*y / T) + delta for T = +-2^127 (quotients next to the
     // i128 boundaries), for all lattice pairs
     total = total.merge(timed("i128 lattice^2 x derived d (quotient ~ +-2^127)", || {
@@ -802,7 +830,7 @@ fn enumerate(tier: Tier) -> Tally {
                 let base = n / &t;
                 for delta in [-1i32, 0, 1] {
                     if let Some(d) = fit128(&(&base + delta)) {
-                        if d != 0 && !lcs.contains(&d) && !out.iter().any(|(o, _)| *o == d) {
+                        if d != 0 && !lall.contains(&d) && !out.iter().any(|(o, _)| *o == d) {
                             out.push((d, pxy));
                         }
                     }
@@ -816,8 +844,7 @@ fn enumerate(tier: Tier) -> Tally {
     let small_pairs = cross(&r, &r);
     total = total.merge(timed(&format!("i128 all |x|,|y|,|d| <= {}", sz.small), || {
         run_i128(&small_pairs, |x, y, _, out| {
-            let xy = lcs.contains(&x) && lcs.contains(&y);
-            out.extend(r.iter().filter(|d| !(xy && lcs.contains(d))).map(|&d| (d, true)))
+            out.extend(r.iter().filter(|&&d| !covered(x, y, d)).map(|&d| (d, true)))
         })
     }));
 
@@ -828,8 +855,7 @@ fn enumerate(tier: Tier) -> Tally {
     let lifted_pairs: Vec<(i128, i128)> = cross(&rl, &rl).into_iter().map(|(a, b)| (a << 63, b << 65)).collect();
     total = total.merge(timed(&format!("i128 lifted (a*2^63, b*2^65, c*2^120), |a|,|b|,|c| <= {}", sz.lifted), || {
         run_i128(&lifted_pairs, |x, y, _, out| {
-            let xy = lcs.contains(&x) && lcs.contains(&y);
-            out.extend(rl.iter().map(|&c| c << 120).filter(|d| !(xy && lcs.contains(d))).map(|d| (d, true)))
+            out.extend(rl.iter().map(|&c| c << 120).filter(|&d| !covered(x, y, d)).map(|d| (d, true)))
         })
     }));
 
@@ -839,14 +865,14 @@ fn enumerate(tier: Tier) -> Tally {
     let rz_pairs: Vec<(i128, i128)> = rr.iter().map(|&r| (r, 1i128)).collect();
     total = total.merge(timed(&format!("i128 all (r, 1, z) with |r|,|z| <= {}", sz.rz), || {
         run_i128(&rz_pairs, |r, _, _, out| {
-            let (rl, rs) = (lcs.contains(&r), r.abs() <= sz.small);
-            out.extend(rr.iter().filter(|z| !(rl && lcs.contains(z)) && !(rs && z.abs() <= sz.small)).map(|&z| (z, true)))
+            let rs = r.abs() <= sz.small;
+            out.extend(rr.iter().filter(|&&z| !covered(r, 1, z) && !(rs && z.abs() <= sz.small)).map(|&z| (z, true)))
         })
     }));
     let rw = range(sz.rz_wide);
     let rzw_pairs: Vec<(i128, i128)> = rw.iter().flat_map(|&r| [(r << 62, (1i128 << 66) + 1), (r << 62, -(1i128 << 66) - 1)]).collect();
     total = total.merge(timed(&format!("i128 widened (r*2^62, +-(2^66+1), z*2^118), |r|,|z| <= {}", sz.rz_wide), || {
-        run_i128(&rzw_pairs, |_, _, _, out| out.extend(rw.iter().map(|&z| (z << 118, true))))
+        run_i128(&rzw_pairs, |x, y, _, out| out.extend(rw.iter().map(|&z| z << 118).filter(|&d| !covered(x, y, d)).map(|d| (d, true))))
     }));
 
     // I256: lattice lifted to 256 bits, products that fit
@@ -1010,7 +1036,7 @@ fn eval_case(case: &str, verbose: bool) -> Tally {
     t
 }
 
-const RULE: &str = "stateless exhaustive enumeration of inputs of the real contract-utils math functions inside a native soroban Env, compared with exact big-integer (num-bigint) floor/ceil/trunc quotients that are re-validated against their defining inequalities on every use. i128: every triple (x,y,d) of a boundary lattice L (0, +-1,2,3,5,7,10, +-10^k, +-(2^k-1), +-2^k, +-(2^k+1) for k in {31,32,62,63,64,65,95,96,126}, MIN..MIN+2, MAX-2..MAX, +-isqrt(MAX)(+1), Wad neighbours, one fixed bit pattern per bit length 1..127 with both signs) x {floor,ceil,trunc}, checked variants on L^3 and panicking variants (each call under catch_unwind) on a sub-lattice^3; plus L^2 x divisors derived to put the quotient next to +-2^127; plus ALL small triples |x|,|y|,|d|<=B natively and lifted into the widened path (a*2^63, b*2^65, c*2^120); plus ALL (r,z) with |r|,|z|<=300 natively and widened. I256: the lattice lifted to 256 bits, all triples whose product fits, both variants, plus a small (r,y,z) family. Wad: all lattice pairs and a decimal neighbourhood for checked_mul/checked_div/from_ratio (exact truncation, no value iff divisor zero or result does not fit), pow vs checked_pow for lattice bases x exponents {0..=40,63,64,127,128,255,256,65535,2^32-2,2^32-1} (only: pow fails iff checked_pow is None). evaluations = library calls compared with the reference; non-trivial = distinct inputs whose product leaves i128, whose quotient is inexact, or for which an error is demanded. Exhaustive over the enumerated lattices, not over the 384-bit input space.";
+const RULE: &str = "stateless exhaustive enumeration of inputs of the real contract-utils math functions inside a native soroban Env, compared with exact big-integer (num-bigint) floor/ceil/trunc quotients that are re-validated against their defining inequalities on every use. i128: every triple (x,y,d) of a boundary lattice L (0, +-1,2,3,5,7,10, +-10^k, +-(2^k-1), +-2^k, +-(2^k+1) for k in {31,32,62,63,64,65,95,96,126}, MIN..MIN+2, MAX-2..MAX, +-isqrt(MAX)(+1), Wad neighbours, one fixed bit pattern per bit length 1..127 with both signs) x {floor,ceil,trunc}: checked variants on the cube of L restricted to the structured values and (quick) every 16th / (thorough) every even bit length, the remaining bit lengths in one operand position at a time against the structured sub-lattice (thorough), panicking variants (each call under catch_unwind) on a sub-lattice^3; plus L^2 x divisors derived to put the quotient next to +-2^127; plus ALL small triples |x|,|y|,|d|<=B natively and lifted into the widened path (a*2^63, b*2^65, c*2^120); plus ALL (r,z) with |r|,|z|<=300 natively and widened. I256: the lattice lifted to 256 bits, all triples whose product fits, both variants, plus a small (r,y,z) family. Wad: all lattice pairs and a decimal neighbourhood for checked_mul/checked_div/from_ratio (exact truncation, no value iff divisor zero or result does not fit), pow vs checked_pow for lattice bases x exponents {0..=40,63,64,127,128,255,256,65535,2^32-2,2^32-1} (only: pow fails iff checked_pow is None). evaluations = library calls compared with the reference; non-trivial = distinct inputs whose product leaves i128, whose quotient is inexact, or for which an error is demanded. Exhaustive over the enumerated lattices, not over the 384-bit input space.";
 
 fn main() {
     main_with("C12", "exploration", RULE, |tier, runner| {
